@@ -289,6 +289,11 @@ def gen_case(rng, pid, tier):
                 if r2.random() < 0.3:
                     ops.append(['appsev', ops[-1][1], r2.choice([0, 1, 50, 100]), False, None,
                                 r2.choice([None, 'drop', '2m'])])
+                elif pid in SCHED_PIDS and r2.random() < 0.35:
+                    # ... or states other resource figures (what the running master does with them is its business;
+                    # the capacity accounting of the server the instance sits on must stay exact)
+                    ops[-1] = ops[-1] + [{'memory': r2.choice(['1G', '2G', '3G', '5G', '6G']),
+                                          'cpu': r2.choice(['10%', '50%', '200%'])}]
         elif r < 0.895:
             ops.append(['tick', rng.choice([1, 5, 29, 31, 40, 200, 301])])
         elif r < 0.903 and napps[0]:
@@ -2452,6 +2457,9 @@ def _apply(case, pid, run, w, op):
                 else:
                     man['data_retention_timeout'] = op[5]
                 w.stats['manifest-retention-rewritten'] += 1
+            if len(op) > 6 and op[6]:
+                man.update(op[6])
+                w.stats['manifest-resources-rewritten'] += 1
             w.zput('/scheduled/' + name, man)
             _post_event_node(w, 'apps', [name])
             guarded('event:apps', lambda: w.m.process_events(w.store.children('/events')))
